@@ -32,6 +32,7 @@ class Hits:
         self.allowed_call = []
         self.keys_calls = []      # `.keys()` ran (dict(kwargs) in _handle_call)
         self.special = []         # __iter__/__getitem__/__lt__/__gt__/__rsub__/__index__ of a canary ran
+        self.module_hooks = []    # a module-level __getattr__ (PEP 562) of a canary module ran: (module, name)
         self.state_writes = []
 
 
@@ -281,6 +282,7 @@ def canary_service():
     return CanarySvc()
 
 
+HOOK_MODULE = "c07hookmod"
 CANARY_MODULES = ["c07canmod_a", "c07canmod_b"]
 LURE_MODULES = ["sndhdr", "colorsys", "chunk", "tabnanny"]      # importable standard modules nothing here imports
 _FINDER = None
@@ -310,6 +312,18 @@ def ensure_canary_modules():
 
     _FINDER = CanaryFinder()
     sys.meta_path.append(_FINDER)
+    # an application module that IS loaded and has a PEP 562 hook (lazy attributes): no peer message may make it run
+    import types as _types
+    hook = _types.ModuleType(HOOK_MODULE)
+
+    def _module_getattr(name):
+        HITS.module_hooks.append((HOOK_MODULE, name))
+        __import__("c07canmod_b")
+        raise AttributeError(name)
+
+    hook.__getattr__ = _module_getattr
+    hook.Existing = type("Existing", (object,), {})
+    sys.modules[HOOK_MODULE] = hook
 
 
 IMPORTED = []
@@ -400,6 +414,7 @@ class Session:
         rpyc.lib.time = self.net.clock
         rt.HITS = HITS
         for lst in (HITS.denied_attr, HITS.denied_call, HITS.allowed_call, HITS.keys_calls, HITS.special, HITS.state_writes,
+                    HITS.module_hooks,
                     rt.PICKLE_LOG, rt.IMPORT_LOG, IMPORTED):
             del lst[:]
         self.modules_before = set(sys.modules)
@@ -459,8 +474,10 @@ class Session:
         rpyc.lib.time = self._saved_time
         self.imported_during = sorted(set(sys.modules) - self.modules_before)
         for m in self.imported_during:
-            if m in CANARY_MODULES or m.split(".")[0] in LURE_MODULES:
+            if m in CANARY_MODULES or m.split(".")[0] in LURE_MODULES or m.startswith("concurrent.futures."):
                 del sys.modules[m]
+        for lazy in ("ProcessPoolExecutor", "ThreadPoolExecutor"):      # what concurrent.futures' hook caches in its namespace
+            vars(concurrent.futures).pop(lazy, None)
         return False
 
     @staticmethod
@@ -553,7 +570,10 @@ def model_core(line):
 
 
 # ------------------------------------------------------------------------------------------------ generator
-INSPECT_NAMES = ["c07canmod_a.Boom", "c07canmod_b.X.Y", "c07canmod_a", "c07canmod_b.Boom", "sndhdr.X", "colorsys.X.Y", "chunk.Chunk",
+import concurrent.futures  # noqa: F401,E402  (loaded in the serving process; its PEP 562 hook imports submodules lazily)
+INSPECT_NAMES = ["c07hookmod.Whatever", "c07hookmod.Existing", "c07hookmod.a.b", "c07hookmod.__getattr__", "c07hookmod.Whatever",
+                 "concurrent.futures.ProcessPoolExecutor", "concurrent.futures.ThreadPoolExecutor", "urllib.parse.Quoter",
+                 "c07canmod_a.Boom", "c07canmod_b.X.Y", "c07canmod_a", "c07canmod_b.Boom", "sndhdr.X", "colorsys.X.Y", "chunk.Chunk",
                  "tabnanny.NannyNag", "os.system", "os.path.join", "json.decoder.JSONDecoder", "handlers_world.Thing", "canary.Foo",
                  "builtins.eval", "sys.modules", "x", "a.b.c.d", ".", "..x", "os.", ".os"]
 BUILTIN_NAMES = ["builtins.int", "builtins.list", "builtins.function", "builtins.type", "builtins.dict", "builtins.str",
@@ -1141,7 +1161,7 @@ def run_session(rng, n_bursts, config=None, cfg_text="default"):
         s.final_model_line = s.model_line(cfg_text)
         s.gen = g
         s.hits = dict(denied_attr=list(HITS.denied_attr), denied_call=list(HITS.denied_call), keys=list(HITS.keys_calls),
-                      special=list(HITS.special),
+                      special=list(HITS.special), module_hooks=list(HITS.module_hooks),
                       state_writes=list(HITS.state_writes), pickle=list(rt.PICKLE_LOG), imports=list(rt.IMPORT_LOG),
                       imported=list(IMPORTED), new_modules=sorted(m for m in set(sys.modules) - s.modules_before
                                                                  if not m.startswith("encodings")),
